@@ -16,7 +16,7 @@ BOOL_OPTS = ["retain_names", "retain_coefficients", "sort_graded", "sort_reverse
 OPS = ["construct", "add", "sub_self", "mul", "pow", "derivative", "gradient", "call_num", "call_partial", "call_staged",
        "call_staged_none", "hessian", "divmod", "divmod_quotient", "divmod_remainder", "derivative2", "derivative_positions", "construct_mixed_dtypes", "getitem",
        "align", "pickle", "sum", "concatenate", "where", "astype", "isconstant_tonumpy", "equal", "clean",
-       "call_cancelled_mixed_dtypes", "constant_from_unsorted_terms", "construct_unnamed_unused_column"]
+       "call_cancelled_mixed_dtypes", "constant_from_unsorted_terms", "construct_unnamed_unused_column", "derivative_positions_stored_order"]
 # ordering-based functions: the sort options legitimately decide their result, every OTHER option must not
 ORDER_OPS = ["argmax", "argmin", "amax", "amin", "sortable_proxy", "lead_exponent", "lead_coefficient", "maximum", "greater", "sort_like"]
 
@@ -34,9 +34,28 @@ def gen(tier, rng):
         if op.startswith("divmod"):
             # C15's quantifier: division is checked under the default retain options only
             opts["retain_names"], opts["retain_coefficients"] = True, False
-        yield {"op": op, "opts": opts,
-               "a": rand_poly(rng, shape=rng.choice([(), (2,), (2, 2)]), pool=[-1, 0, 0, 1, 2], maxterms=3),
+        a = rand_poly(rng, shape=rng.choice([(), (2,), (2, 2)]), pool=[-1, 0, 0, 1, 2], maxterms=3)
+        if op == "derivative_positions_stored_order":
+            a = rand_poly(rng, shape=rng.choice([(), (2,)]), pool=[-1, 1, 2, 3], maxterms=3, names=rng.choice([["q0", "q1"], ["q0", "q1", "q2"], ["q1", "q10"]]))
+        if op in ("derivative", "derivative2", "derivative_positions", "gradient", "hessian", "derivative_positions_stored_order") \
+                and len(a["names"]) > 1 and rng.random() < (0.9 if op == "derivative_positions_stored_order" else 0.4):
+            # the same polynomial with its indeterminates stored in non-numeric order (names and exponent columns permuted together)
+            perm = list(range(len(a["names"])))
+            while perm == sorted(perm):
+                rng.shuffle(perm)
+            a["names"] = [a["names"][k] for k in perm]
+            a["exponents"] = [[row[k] for k in perm] for row in a["exponents"]]
+        yield {"op": op, "opts": opts, "a": a,
                "b": rand_poly(rng, shape=rng.choice([(), (2,)]), pool=[-1, 0, 1], maxterms=2)}
+    # successive positional derivatives of polynomials whose names are stored in non-numeric order, names not retained
+    for _ in range(count(tier, 12, 100)):
+        names = rng.choice([["q1", "q0"], ["q2", "q0", "q1"], ["q10", "q1"], ["q1", "q2", "q0"]])
+        a = rand_poly(rng, shape=rng.choice([(), (2,)]), pool=[-1, 1, 2, 3], maxterms=3, names=sorted(names, key=lambda n: int(n[1:])))
+        perm = [a["names"].index(n) for n in names]
+        a["names"], a["exponents"] = names, [[row[k] for k in perm] for row in a["exponents"]]
+        opts = {k: rng.random() < 0.5 for k in BOOL_OPTS}
+        opts["retain_names"] = False
+        yield {"op": "derivative_positions_stored_order", "opts": opts, "a": a, "b": rand_poly(rng, shape=(), pool=[1], maxterms=1)}
 
 
 def run_op(op, a, b, numpoly):
@@ -97,6 +116,11 @@ def run_op(op, a, b, numpoly):
         x = numpoly.variable(3)
         p = a * b + 2 * x[0] + x[0] * x[1] ** 3 * x[2] + 5 * x[1] ** 2 * x[2] ** 2
         return numpoly.derivative(p, 0, 1)
+    if op == "derivative_positions_stored_order":
+        # positions count in the stored name tuple of the argument (kept by the constructor: every name retained), also when that
+        # tuple is not in numeric order and an earlier step has removed an indeterminate from the intermediate result
+        D = len(a.names)
+        return numpoly.derivative(a, 0, 0) + 3 * numpoly.derivative(a, D - 1, 0) + 7 * numpoly.derivative(a, 0, D - 1, 0)
     if op == "construct_mixed_dtypes":
         # coefficient arrays of different dtypes in one call, an all-zero integer term first: whether that term is pruned
         # (retain_coefficients) must not decide the dtype, let alone the values, of the result
@@ -165,7 +189,7 @@ def as_model(r, numpoly):
 
 @check("C15", "options.do_not_change_results", gen,
        functions=("numpoly.polynomial_from_attributes", "numpoly.clean_attributes", "numpoly.postprocess_attributes"),
-       note="bounded: 28 representative operations (construct, combine, differentiate, evaluate, index, align, (un)pickle ...) "
+       note="bounded: 29 representative operations (construct, combine, differentiate, evaluate, index, align, (un)pickle ...) "
             "under random settings of the 8 boolean options and 2 display strings; oracle = same operation under default options; "
             "plus 10 ordering-based functions (argmax, amax, sortable_proxy, lead_*, maximum, > ...) whose oracle is the same call "
             "with the same SORT and RETAIN options and every other option at its default")
